@@ -5,6 +5,7 @@ package main
 import (
 	"encoding/json"
 	"fmt"
+	"os"
 	"sort"
 	"strings"
 
@@ -34,7 +35,7 @@ type c19Case struct {
 	NAddr   int     `json:"naddr"`
 	Initial string  `json:"initial"` // ok | fail
 	Hist    []c19Ev `json:"history"`
-	Tail    string  `json:"tail,omitempty"` // static-other: the list ends with a static entry of the other transport on another port; same-name: every host name is listed a second time with the other transport (same port)
+	Tail    string  `json:"tail,omitempty"` // two-rotations: a second listens entry lists the same host-name backends; static-other: the list ends with a static entry of the other transport on another port; same-name: every host name is listed a second time with the other transport (same port)
 }
 
 const c19TailAddr = "127.0.9.9:7100"
@@ -122,6 +123,12 @@ func c19Exec(cs c19Case) (string, string, string) {
 		}
 	}
 	cfg := RCfg{Name: "svc.example.com", DialogTimeout: 1200, Listens: []RListen{{Addr: "127.0.0.1", UDP: 5060, TCP: 5062, Backends: bes}}}
+	nrot := 1
+	if cs.Tail == "two-rotations" {
+		// a second listens entry with the same host-name backends: its own rotation, fed by the same names
+		cfg.Listens = append(cfg.Listens, RListen{Addr: "127.0.0.1", UDP: 5070, Backends: bes})
+		nrot = 2
+	}
 	ref := &c19Ref{tail: cs.Tail == "static-other", cur: make([]c19Ev, cs.NHosts), set: make([][]string, cs.NHosts), fails: make([]int, cs.NHosts)}
 	for h := 0; h < cs.NHosts; h++ {
 		if cs.Initial == "fail" {
@@ -161,7 +168,8 @@ func c19Exec(cs c19Case) (string, string, string) {
 	}
 	seq := 0
 	ua, lst := "127.0.0.9:5060", "127.0.0.1:5060"
-	dispatch := func() []string {
+	lsts := []string{"127.0.0.1:5060", "127.0.0.1:5070"}
+	dispatch := func(lst string) []string {
 		seq++
 		m := MsgSpec{Method: "OPTIONS", RURI: "sip:bob@svc.example.com", Vias: []string{fmt.Sprintf("SIP/2.0/UDP %s;branch=z9hG4bKd%d", ua, seq)}, From: "<sip:a@ua.example.net>;tag=1", To: "<sip:bob@svc.example.com>", CallID: fmt.Sprintf("d%d", seq), CSeq: "1 OPTIONS"}.Build()
 		w.Observe()
@@ -172,15 +180,12 @@ func c19Exec(cs c19Case) (string, string, string) {
 		}
 		return to
 	}
-	check := func(desc string) (string, string) {
-		if vd := w.S.Verdict(); vd != "" {
-			return "health", desc + ": " + vd + "\n" + w.S.CrashDetail()
-		}
-		exp := ref.expected()
+	checkRot := func(desc string, exp []string, r int) (string, string) {
+		lst := lsts[r]
 		// (1) the endpoints that receive dispatches
 		got := map[string]bool{}
 		for k := 0; k < 2*len(exp)+1; k++ {
-			to := dispatch()
+			to := dispatch(lst)
 			if len(exp) == 0 {
 				if len(to) != 0 {
 					return "dispatch-with-empty-rotation", fmt.Sprintf("%s: no address is resolved but a request went to %v", desc, to)
@@ -200,6 +205,39 @@ func c19Exec(cs c19Case) (string, string, string) {
 		if strings.Join(gl, ",") != strings.Join(exp, ",") {
 			return "rotation-differs-from-resolution", fmt.Sprintf("%s: resolved addresses %v (consecutive failures %v), but dispatches reach %v", desc, exp, ref.fails, gl)
 		}
+		// (1b) every resolved address is in the rotation exactly once per configured transport
+		perAddr := 1
+		if cs.Tail == "same-name" {
+			perAddr = 2
+		}
+		cnt := map[string]int{}
+		for _, x := range w.S.RoundRobins()[r].backends {
+			cnt[x.GetAddress()]++
+		}
+		for _, a := range exp {
+			if cnt[a] != perAddr {
+				return "rotation-member-multiplicity", fmt.Sprintf("%s: %s is in the rotation %d times (expected %d): rotation %s", desc, a, cnt[a], perAddr, c19Rot(w, r))
+			}
+		}
+		return "", ""
+	}
+	check := func(desc string) (string, string) {
+		if vd := w.S.Verdict(); vd != "" {
+			return "health", desc + ": " + vd + "\n" + w.S.CrashDetail()
+		}
+		exp := ref.expected()
+		if n := len(w.S.RoundRobins()); n != nrot {
+			return "harness-rotation-count", fmt.Sprintf("%s: %d rotations exist, %d expected", desc, n, nrot)
+		}
+		for r := 0; r < nrot; r++ {
+			if cl, d := checkRot(desc, exp, r); cl != "" {
+				if nrot > 1 {
+					d = fmt.Sprintf("rotation of listens entry %d: %s", r+1, d)
+				}
+				return cl, d
+			}
+		}
+		lst := lsts[0]
 		// (2) the proxy's attribution index
 		p := w.S.Proxies()[0]
 		var pk []string
@@ -223,7 +261,10 @@ func c19Exec(cs c19Case) (string, string, string) {
 					w.Observe()
 					pinned := true
 					distinct := map[string]bool{}
-					for k := 0; k < len(exp)+1; k++ {
+					// one whole cycle of the rotation as held (at least len(exp)+1 probes): an unbound dialog then
+					// reaches every address of the rotation
+					nprobe := maxInt(len(exp)+1, len(w.S.RoundRobins()[0].backends))
+					for k := 0; k < nprobe; k++ {
 						seq++
 						m := MsgSpec{Method: "INFO", RURI: "sip:bob@svc.example.com", Vias: []string{fmt.Sprintf("SIP/2.0/UDP %s;branch=z9hG4bKi%d", ua, seq)}, From: "<sip:a@ua.example.net>;tag=fa", To: "<sip:bob@svc.example.com>;tag=ta", CallID: cid, CSeq: fmt.Sprintf("%d INFO", seq)}.Build()
 						w.SendUDP(ua, lst, m.Render())
@@ -246,7 +287,7 @@ func c19Exec(cs c19Case) (string, string, string) {
 						return "response-from-backend-not-attributed", fmt.Sprintf("%s: %s is a resolved backend, but a response from it did not bind the dialog to it (probes went to %v)", desc, x, distinct)
 					}
 					if !isBackend && len(distinct) < 2 {
-						return "response-from-non-backend-attributed", fmt.Sprintf("%s: %s is not a resolved backend (resolved: %v), but a response from it bound the dialog (all probes went to %v)", desc, x, exp, distinct)
+						return "response-from-non-backend-attributed", fmt.Sprintf("%s: %s is not a resolved backend (resolved: %v), but a response from it bound the dialog (all probes went to %v; rotation %s)", desc, x, exp, distinct, c19Rot(w, 0))
 					}
 				}
 			}
@@ -262,7 +303,7 @@ func c19Exec(cs c19Case) (string, string, string) {
 			if cs.Tail == "static-other" {
 				open++ // the static tail entry is a TCP backend: no socket of its own
 			}
-			if open != len(exp) {
+			if open != len(exp)*nrot {
 				return "backend-sockets-not-closed", fmt.Sprintf("%s: %d backends resolved but %d backend sockets are open", desc, len(exp), open)
 			}
 		} else {
@@ -330,18 +371,28 @@ func c19Exec(cs c19Case) (string, string, string) {
 		}
 		fmt.Fprintf(&b, "h%d:%v/%d/cur=%v|", h, e.addrs, f, ref.cur[h])
 	}
-	rr := w.S.RoundRobins()[0]
-	var l []string
-	for _, x := range rr.backends {
-		l = append(l, x.GetAddress())
+	for _, rr := range w.S.RoundRobins() {
+		var l []string
+		for _, x := range rr.backends {
+			l = append(l, x.GetAddress())
+		}
+		fmt.Fprintf(&b, "rr=%v/%d", l, rr.index%maxInt(len(l), 1))
 	}
-	fmt.Fprintf(&b, "rr=%v/%d", l, rr.index%maxInt(len(l), 1))
 	// the oracle is evaluated on the state reached by the last step (earlier prefixes were
 	// checked when they were explored)
 	if cl, d := check(desc); cl != "" {
-		return "", cl, d
+		return b.String(), cl, d
 	}
 	return b.String(), "", ""
+}
+
+// c19Rot describes the rotation as the proxy holds it (transport and address of every member).
+func c19Rot(w *RelayWorld, r int) string {
+	var l []string
+	for _, x := range w.S.RoundRobins()[r].backends {
+		l = append(l, strings.TrimPrefix(fmt.Sprintf("%T", x), "*main.")+"@"+x.GetAddress())
+	}
+	return fmt.Sprint(l)
 }
 
 func maxInt(a, b int) int {
@@ -401,6 +452,8 @@ func c19Run(c *Ctx) {
 	// one host name listed under BOTH transports with the same port: the address-keyed tables of the
 	// rotation cannot hold two backends with one host:port (tracked finding, see KNOWN_FINDINGS.txt)
 	plans = append(plans, plan{"udp", 1, naddr, "ok", d2, "same-name"}, plan{"tcp", 1, naddr, "ok", d2 - 1, "same-name"})
+	// one host name feeding the rotations of two listens entries
+	plans = append(plans, plan{"udp", 1, naddr, "ok", d2, "two-rotations"}, plan{"tcp", 1, naddr, "fail", d2 - 1, "two-rotations"})
 	for _, pl := range plans {
 		pl := pl
 		var evs []c19Ev
@@ -417,8 +470,10 @@ func c19Run(c *Ctx) {
 			}
 			if cl != "" && pl.tail == "same-name" {
 				// its own clause names: never collapsed with a violation found under another configuration
+				// and the search goes on from the violating state, so that every manifestation of the tracked
+				// defect is reported (and a new one is not masked by the first)
 				c.Violate("both-transports-"+cl+"|same-name", "both-transports-"+cl, detail, cs)
-				return "", false
+				return key, true
 			}
 			if cl != "" {
 				var ts []string
@@ -454,7 +509,10 @@ func init() {
 		Replay: func(c *Ctx, raw json.RawMessage) string {
 			var cs c19Case
 			json.Unmarshal(raw, &cs)
-			_, cl, _ := c19Exec(cs)
+			_, cl, d := c19Exec(cs)
+			if d != "" && os.Getenv("VERIF_REPLAY_DETAIL") != "" {
+				fmt.Println(d)
+			}
 			return cl
 		}})
 }
